@@ -582,6 +582,64 @@ func c11Concurrent(c *mon.Ctx, r *mon.Rand) {
 	wg.Wait()
 	c.Event("concurrent-snapshots", int64(nsnap))
 	c11FirstUse(c, r.Fork(7))
+	c11ConcurrentDerive(c, r.Fork(8))
+}
+
+// c11ConcurrentDerive: several goroutines derive the same few test subscopes,
+// record on them, and close them now and then, all at the same time. A test
+// scope never drops anything: whatever was derived, closed and derived again
+// in between, every increment is in the final snapshot.
+func c11ConcurrentDerive(c *mon.Ctx, r *mon.Rand) {
+	ts := vNewTest("", nil, uint(r.Range(0, 3)))
+	G := r.Range(2, 6)
+	per := r.Range(50, 400)
+	nIdent := r.Range(1, 3)
+	desc := map[string]interface{}{"scenario": "concurrent derive/record/close on a test scope", "goroutines": G, "operations": per, "identities": nIdent}
+	var sums [3]int64
+	var wg sync.WaitGroup
+	start := make(chan struct{})
+	stop := c.Watchdog(120*time.Second, "no-progress", desc)
+	defer stop()
+	for g := 0; g < G; g++ {
+		wg.Add(1)
+		gr := r.Fork(uint64(g + 1))
+		go func() {
+			defer wg.Done()
+			<-start
+			c.Guard("panic-testscope-derive", func() interface{} { return desc }, func() {
+				for i := 0; i < per; i++ {
+					k := gr.Intn(nIdent)
+					var sc tally.Scope
+					if k%2 == 0 {
+						sc = ts.SubScope(fmt.Sprintf("d%d", k))
+					} else {
+						sc = ts.Tagged(map[string]string{"d": fmt.Sprint(k)})
+					}
+					sc.Counter("n").Inc(1)
+					atomic.AddInt64(&sums[k], 1)
+					if gr.Chance(1, 4) {
+						sc.(io.Closer).Close()
+					}
+				}
+			})
+		}()
+	}
+	close(start)
+	wg.Wait()
+	got := map[string]int64{}
+	for _, cs := range ts.Snapshot().Counters() {
+		got[cs.Name()+fmt.Sprint(cs.Tags())] += cs.Value()
+	}
+	for k := 0; k < nIdent; k++ {
+		key := fmt.Sprintf("d%d.n%v", k, map[string]string{})
+		if k%2 == 1 {
+			key = "n" + fmt.Sprint(map[string]string{"d": fmt.Sprint(k)})
+		}
+		if got[key] != atomic.LoadInt64(&sums[k]) {
+			c.Violation("snapshot-counter-value", map[string]interface{}{"why": fmt.Sprintf("test subscope %d was derived, recorded on and closed concurrently by %d goroutines: the final snapshot shows %d under %s, %d increments were made (all entries: %v)", k, G, got[key], key, atomic.LoadInt64(&sums[k]), got), "case": desc})
+		}
+	}
+	c.Event("concurrent-derive-runs", 1)
 }
 
 // c11FirstUse: several goroutines make the first use of the same metrics of
